@@ -102,8 +102,42 @@ def matchByName (name : String) (line : Str) : Except String Json :=
   | "TAG_VALUE_STABILITY_RE" => pure (matchResJson (some (matchStability line)))
   | _ => throw s!"unknown pattern {name}"
 
+def partJson (isTag : Bool) (p : PartM) : Json :=
+  Json.mkObj ([("name", jstr p.name), ("line", Json.num p.line), ("annotations", annsJson p.annotations),
+    ("anns_line", jopt (fun (n : Nat) => Json.num n) p.annsLine), ("description", jopt jstr p.description)] ++
+    (if isTag then [("value", jopt jstr p.value)] else []))
+
+def blockJson (b : BlockM) : Json :=
+  Json.mkObj [("name", jstr b.name), ("line", Json.num b.line), ("annotations", annsJson b.annotations),
+    ("anns_line", jopt (fun (n : Nat) => Json.num n) b.annsLine),
+    ("params", Json.arr (b.params.map (fun e => partJson false e.2)).toArray),
+    ("description", jopt jstr b.description),
+    ("tags", Json.arr (b.tags.map (fun e => partJson true e.2)).toArray),
+    ("code_before", jstr b.codeBefore), ("code_after", jstr b.codeAfter), ("indentation", jstrs b.indentation)]
+
+def bdiagJson (d : BDiag) : Json :=
+  Json.mkObj [("level", Json.str (levelStr d.level)), ("kind", Json.str (kindStr d.kind)), ("line", Json.num d.line),
+    ("marker", jopt (fun (n : Nat) => Json.num n) d.marker), ("quoted", jopt jstr d.quoted)]
+
+/-- `parse_comment_block` and, for a block, `GtkDocCommentBlockWriter.write` of the result -/
+def blockParseJson (text : Str) (lineno : Nat) : Json :=
+  match parseBlock text lineno with
+  | .error e => Json.mkObj [("raise", Json.str (errStr e))]
+  | .ok (b, d) =>
+    let written : Json := match b with
+      | none => Json.null
+      | some b => match writeBlock b with
+        | .ok s => jstr s
+        | .error e => Json.mkObj [("raise", Json.str (errStr e))]
+    Json.mkObj [("block", jopt blockJson b), ("diags", Json.arr (d.map bdiagJson).toArray), ("written", written)]
+
 def handleAnn (op : String) : Option Handler :=
   match op with
+  | "block.parse" => some fun j => do
+      pure (blockParseJson (← strOf j "text") (← natOf j "lineno"))
+  | "block.lines" => some fun j => do
+      pure (jstrs (commentLines (← strOf j "text")))
+  | "str.capitalize" => some fun j => do pure (jstr (pyCapitalize (← strOf j "s")))
   | "ann.parse" => some fun j => do
       pure (annResultJson (parseAnnotations (boolOr j "parse_options" true) (← natOf j "col")
         (← strOf j "fields") (← optAnnsOf j "init")))
